@@ -9,6 +9,26 @@ use std::cell::RefCell;
 use std::collections::HashMap;
 use std::panic::{catch_unwind, AssertUnwindSafe};
 
+thread_local! {
+    static KEY_ROUTE: std::cell::Cell<usize> = std::cell::Cell::new(0);
+}
+
+/// The equivalent routes to a `Key<N>` - owned array, array reference, slice, hexadecimal text - taken in
+/// turn, so that every entry point meets keys built each way.
+pub fn mk_key<const N: usize>(bytes: [u8; N]) -> Key<N> {
+    let r = KEY_ROUTE.with(|c| {
+        let v = c.get();
+        c.set(v + 1);
+        v
+    });
+    match r % 4 {
+        0 => Key::<N>::from(bytes),
+        1 => Key::<N>::from(&bytes),
+        2 => Key::<N>::from(&bytes[..]),
+        _ => Key::<N>::try_from(hex::encode(bytes).as_str()).expect("hexadecimal route to a key"),
+    }
+}
+
 #[derive(Clone, Copy, PartialEq, Eq, Hash, Debug, PartialOrd, Ord)]
 pub struct Proto {
     pub v: u8,
@@ -183,7 +203,7 @@ pub fn classify_build<T>(e: GenericBuilderError) -> Out<T> {
 
 macro_rules! local_mint {
     ($V:ident, $km:expr, $nonce:expr, $msg:expr, $footer:expr, $assertion:expr, $N:literal, assert=$has:tt) => {{
-        let key = PasetoSymmetricKey::<$V, Local>::from(Key::<32>::from($km.sym));
+        let key = PasetoSymmetricKey::<$V, Local>::from(mk_key::<32>($km.sym));
         let nk = Key::<$N>::from(&$nonce[..$N]);
         let nonce = PasetoNonce::<$V, Local>::from(&nk);
         let mut b = Paseto::<$V, Local>::builder();
@@ -242,18 +262,28 @@ pub fn core_mint(
             public_sign!(V1, key, msg, footer, assertion, assert = no)
         }
         (2, true) => {
-            let k = Key::<64>::from(km.ed_sk);
-            let key = PasetoAsymmetricPrivateKey::<V2, Public>::from(&k);
+            let k = mk_key::<64>(km.ed_sk);
+            // two routes to the private key: from a Key<64> and from a byte slice
+            let key = if KEY_ROUTE.with(|c| c.get()) % 3 == 0 {
+                PasetoAsymmetricPrivateKey::<V2, Public>::from(&km.ed_sk[..])
+            } else {
+                PasetoAsymmetricPrivateKey::<V2, Public>::from(&k)
+            };
             public_sign!(V2, key, msg, footer, assertion, assert = no)
         }
         (3, true) => {
-            let k = Key::<48>::from(km.p384_sk);
+            let k = mk_key::<48>(km.p384_sk);
             let key = PasetoAsymmetricPrivateKey::<V3, Public>::from(&k);
             public_sign!(V3, key, msg, footer, assertion, assert = yes)
         }
         (4, true) => {
-            let k = Key::<64>::from(km.ed_sk);
-            let key = PasetoAsymmetricPrivateKey::<V4, Public>::from(&k);
+            let k = mk_key::<64>(km.ed_sk);
+            // two routes to the private key: from a Key<64> and from a byte slice
+            let key = if KEY_ROUTE.with(|c| c.get()) % 3 == 0 {
+                PasetoAsymmetricPrivateKey::<V4, Public>::from(&km.ed_sk[..])
+            } else {
+                PasetoAsymmetricPrivateKey::<V4, Public>::from(&k)
+            };
             public_sign!(V4, key, msg, footer, assertion, assert = yes)
         }
         _ => unreachable!(),
@@ -284,19 +314,19 @@ pub fn core_present(
     let a: Option<ImplicitAssertion> = assertion.map(ImplicitAssertion::from);
     guard(|| match (pr.v, pr.public) {
         (1, false) => {
-            let key = PasetoSymmetricKey::<V1, Local>::from(Key::<32>::from(km.sym));
+            let key = PasetoSymmetricKey::<V1, Local>::from(mk_key::<32>(km.sym));
             res_core(Paseto::<V1, Local>::try_decrypt(token, &key, f))
         }
         (2, false) => {
-            let key = PasetoSymmetricKey::<V2, Local>::from(Key::<32>::from(km.sym));
+            let key = PasetoSymmetricKey::<V2, Local>::from(mk_key::<32>(km.sym));
             res_core(Paseto::<V2, Local>::try_decrypt(token, &key, f))
         }
         (3, false) => {
-            let key = PasetoSymmetricKey::<V3, Local>::from(Key::<32>::from(km.sym));
+            let key = PasetoSymmetricKey::<V3, Local>::from(mk_key::<32>(km.sym));
             res_core(Paseto::<V3, Local>::try_decrypt(token, &key, f, a))
         }
         (4, false) => {
-            let key = PasetoSymmetricKey::<V4, Local>::from(Key::<32>::from(km.sym));
+            let key = PasetoSymmetricKey::<V4, Local>::from(mk_key::<32>(km.sym));
             res_core(Paseto::<V4, Local>::try_decrypt(token, &key, f, a))
         }
         (1, true) => {
@@ -304,19 +334,19 @@ pub fn core_present(
             res_core(Paseto::<V1, Public>::try_verify(token, &key, f))
         }
         (2, true) => {
-            let k = Key::<32>::from(km.ed_pk);
+            let k = mk_key::<32>(km.ed_pk);
             let key = PasetoAsymmetricPublicKey::<V2, Public>::from(&k);
             res_core(Paseto::<V2, Public>::try_verify(token, &key, f))
         }
         (3, true) => {
-            let k = Key::<49>::from(km.p384_pk);
+            let k = mk_key::<49>(km.p384_pk);
             match PasetoAsymmetricPublicKey::<V3, Public>::try_from(&k) {
                 Ok(key) => res_core(Paseto::<V3, Public>::try_verify(token, &key, f, a)),
                 Err(e) => classify_core(e),
             }
         }
         (4, true) => {
-            let k = Key::<32>::from(km.ed_pk);
+            let k = mk_key::<32>(km.ed_pk);
             let key = PasetoAsymmetricPublicKey::<V4, Public>::from(&k);
             res_core(Paseto::<V4, Public>::try_verify(token, &key, f, a))
         }
@@ -512,7 +542,7 @@ macro_rules! apply_set_claim {
 macro_rules! run_generic_builder {
     ($V:ident, $P:ident, $ops:expr, $key:expr, $finish:ident, assert=$has:tt) => {{
         let mut outs: Vec<Out<String>> = Vec::new();
-        let mut b = GenericBuilder::<$V, $P>::default();
+        let mut b = if KEY_ROUTE.with(|c| c.get()) % 2 == 0 { GenericBuilder::<$V, $P>::default() } else { GenericBuilder::<$V, $P>::new() };
         for op in $ops.iter() {
             match op {
                 BOp::SetClaim { key, value, via } => apply_set_claim!(b, key.as_str(), value, via),
@@ -589,19 +619,19 @@ pub fn run_builder(pr: Proto, layer: Layer, ops: &[BOp], km: &KeyMat) -> Vec<Out
     let r = catch_unwind(AssertUnwindSafe(|| match layer {
         Layer::Generic | Layer::Core => match (pr.v, pr.public) {
             (1, false) => {
-                let key = PasetoSymmetricKey::<V1, Local>::from(Key::<32>::from(km.sym));
+                let key = PasetoSymmetricKey::<V1, Local>::from(mk_key::<32>(km.sym));
                 run_generic_builder!(V1, Local, ops, key, try_encrypt, assert = no)
             }
             (2, false) => {
-                let key = PasetoSymmetricKey::<V2, Local>::from(Key::<32>::from(km.sym));
+                let key = PasetoSymmetricKey::<V2, Local>::from(mk_key::<32>(km.sym));
                 run_generic_builder!(V2, Local, ops, key, try_encrypt, assert = no)
             }
             (3, false) => {
-                let key = PasetoSymmetricKey::<V3, Local>::from(Key::<32>::from(km.sym));
+                let key = PasetoSymmetricKey::<V3, Local>::from(mk_key::<32>(km.sym));
                 run_generic_builder!(V3, Local, ops, key, try_encrypt, assert = yes)
             }
             (4, false) => {
-                let key = PasetoSymmetricKey::<V4, Local>::from(Key::<32>::from(km.sym));
+                let key = PasetoSymmetricKey::<V4, Local>::from(mk_key::<32>(km.sym));
                 run_generic_builder!(V4, Local, ops, key, try_encrypt, assert = yes)
             }
             (1, true) => {
@@ -609,17 +639,17 @@ pub fn run_builder(pr: Proto, layer: Layer, ops: &[BOp], km: &KeyMat) -> Vec<Out
                 run_generic_builder!(V1, Public, ops, key, try_sign, assert = no)
             }
             (2, true) => {
-                let k = Key::<64>::from(km.ed_sk);
+                let k = mk_key::<64>(km.ed_sk);
                 let key = PasetoAsymmetricPrivateKey::<V2, Public>::from(&k);
                 run_generic_builder!(V2, Public, ops, key, try_sign, assert = no)
             }
             (3, true) => {
-                let k = Key::<48>::from(km.p384_sk);
+                let k = mk_key::<48>(km.p384_sk);
                 let key = PasetoAsymmetricPrivateKey::<V3, Public>::from(&k);
                 run_generic_builder!(V3, Public, ops, key, try_sign, assert = yes)
             }
             (4, true) => {
-                let k = Key::<64>::from(km.ed_sk);
+                let k = mk_key::<64>(km.ed_sk);
                 let key = PasetoAsymmetricPrivateKey::<V4, Public>::from(&k);
                 run_generic_builder!(V4, Public, ops, key, try_sign, assert = yes)
             }
@@ -627,19 +657,19 @@ pub fn run_builder(pr: Proto, layer: Layer, ops: &[BOp], km: &KeyMat) -> Vec<Out
         },
         Layer::Prelude => match (pr.v, pr.public) {
             (1, false) => {
-                let key = PasetoSymmetricKey::<V1, Local>::from(Key::<32>::from(km.sym));
+                let key = PasetoSymmetricKey::<V1, Local>::from(mk_key::<32>(km.sym));
                 run_prelude_builder!(V1, Local, ops, key, assert = no)
             }
             (2, false) => {
-                let key = PasetoSymmetricKey::<V2, Local>::from(Key::<32>::from(km.sym));
+                let key = PasetoSymmetricKey::<V2, Local>::from(mk_key::<32>(km.sym));
                 run_prelude_builder!(V2, Local, ops, key, assert = no)
             }
             (3, false) => {
-                let key = PasetoSymmetricKey::<V3, Local>::from(Key::<32>::from(km.sym));
+                let key = PasetoSymmetricKey::<V3, Local>::from(mk_key::<32>(km.sym));
                 run_prelude_builder!(V3, Local, ops, key, assert = yes)
             }
             (4, false) => {
-                let key = PasetoSymmetricKey::<V4, Local>::from(Key::<32>::from(km.sym));
+                let key = PasetoSymmetricKey::<V4, Local>::from(mk_key::<32>(km.sym));
                 run_prelude_builder!(V4, Local, ops, key, assert = yes)
             }
             (1, true) => {
@@ -647,17 +677,17 @@ pub fn run_builder(pr: Proto, layer: Layer, ops: &[BOp], km: &KeyMat) -> Vec<Out
                 run_prelude_builder!(V1, Public, ops, key, assert = no)
             }
             (2, true) => {
-                let k = Key::<64>::from(km.ed_sk);
+                let k = mk_key::<64>(km.ed_sk);
                 let key = PasetoAsymmetricPrivateKey::<V2, Public>::from(&k);
                 run_prelude_builder!(V2, Public, ops, key, assert = no)
             }
             (3, true) => {
-                let k = Key::<48>::from(km.p384_sk);
+                let k = mk_key::<48>(km.p384_sk);
                 let key = PasetoAsymmetricPrivateKey::<V3, Public>::from(&k);
                 run_prelude_builder!(V3, Public, ops, key, assert = yes)
             }
             (4, true) => {
-                let k = Key::<64>::from(km.ed_sk);
+                let k = mk_key::<64>(km.ed_sk);
                 let key = PasetoAsymmetricPrivateKey::<V4, Public>::from(&k);
                 run_prelude_builder!(V4, Public, ops, key, assert = yes)
             }
@@ -827,22 +857,22 @@ pub fn run_parser(
     let r = catch_unwind(AssertUnwindSafe(|| match (pr.v, pr.public) {
         (1, false) => {
             let keys: Vec<_> =
-                kms.iter().map(|km| PasetoSymmetricKey::<V1, Local>::from(Key::<32>::from(km.sym))).collect();
+                kms.iter().map(|km| PasetoSymmetricKey::<V1, Local>::from(mk_key::<32>(km.sym))).collect();
             run_parser_layer!(layer, V1, Local, ops, toks, keys, assert = no)
         }
         (2, false) => {
             let keys: Vec<_> =
-                kms.iter().map(|km| PasetoSymmetricKey::<V2, Local>::from(Key::<32>::from(km.sym))).collect();
+                kms.iter().map(|km| PasetoSymmetricKey::<V2, Local>::from(mk_key::<32>(km.sym))).collect();
             run_parser_layer!(layer, V2, Local, ops, toks, keys, assert = no)
         }
         (3, false) => {
             let keys: Vec<_> =
-                kms.iter().map(|km| PasetoSymmetricKey::<V3, Local>::from(Key::<32>::from(km.sym))).collect();
+                kms.iter().map(|km| PasetoSymmetricKey::<V3, Local>::from(mk_key::<32>(km.sym))).collect();
             run_parser_layer!(layer, V3, Local, ops, toks, keys, assert = yes)
         }
         (4, false) => {
             let keys: Vec<_> =
-                kms.iter().map(|km| PasetoSymmetricKey::<V4, Local>::from(Key::<32>::from(km.sym))).collect();
+                kms.iter().map(|km| PasetoSymmetricKey::<V4, Local>::from(mk_key::<32>(km.sym))).collect();
             run_parser_layer!(layer, V4, Local, ops, toks, keys, assert = yes)
         }
         (1, true) => {
@@ -851,18 +881,18 @@ pub fn run_parser(
             run_parser_layer!(layer, V1, Public, ops, toks, keys, assert = no)
         }
         (2, true) => {
-            let raw: Vec<_> = kms.iter().map(|km| Key::<32>::from(km.ed_pk)).collect();
+            let raw: Vec<_> = kms.iter().map(|km| mk_key::<32>(km.ed_pk)).collect();
             let keys: Vec<_> = raw.iter().map(PasetoAsymmetricPublicKey::<V2, Public>::from).collect();
             run_parser_layer!(layer, V2, Public, ops, toks, keys, assert = no)
         }
         (3, true) => {
-            let raw: Vec<_> = kms.iter().map(|km| Key::<49>::from(km.p384_pk)).collect();
+            let raw: Vec<_> = kms.iter().map(|km| mk_key::<49>(km.p384_pk)).collect();
             let keys: Vec<_> =
                 raw.iter().map(|k| PasetoAsymmetricPublicKey::<V3, Public>::try_from(k).unwrap()).collect();
             run_parser_layer!(layer, V3, Public, ops, toks, keys, assert = yes)
         }
         (4, true) => {
-            let raw: Vec<_> = kms.iter().map(|km| Key::<32>::from(km.ed_pk)).collect();
+            let raw: Vec<_> = kms.iter().map(|km| mk_key::<32>(km.ed_pk)).collect();
             let keys: Vec<_> = raw.iter().map(PasetoAsymmetricPublicKey::<V4, Public>::from).collect();
             run_parser_layer!(layer, V4, Public, ops, toks, keys, assert = yes)
         }
@@ -931,7 +961,7 @@ pub enum COp {
 
 macro_rules! run_core_local {
     ($V:ident, $N:literal, $ops:expr, $kms:expr, assert=$has:tt) => {{
-        let keys: Vec<_> = $kms.iter().map(|km| PasetoSymmetricKey::<$V, Local>::from(Key::<32>::from(km.sym))).collect();
+        let keys: Vec<_> = $kms.iter().map(|km| PasetoSymmetricKey::<$V, Local>::from(mk_key::<32>(km.sym))).collect();
         let mut outs: Vec<Out<String>> = vec![];
         let mut b = Paseto::<$V, Local>::builder();
         for op in $ops.iter() {
@@ -1003,17 +1033,17 @@ pub fn run_core_object(pr: Proto, ops: &[COp], kms: &[KeyMat]) -> Vec<Out<String
             run_core_public!(V1, ops, keys, assert = no)
         }
         (2, true) => {
-            let raw: Vec<_> = kms.iter().map(|km| Key::<64>::from(km.ed_sk)).collect();
+            let raw: Vec<_> = kms.iter().map(|km| mk_key::<64>(km.ed_sk)).collect();
             let keys: Vec<_> = raw.iter().map(PasetoAsymmetricPrivateKey::<V2, Public>::from).collect();
             run_core_public!(V2, ops, keys, assert = no)
         }
         (3, true) => {
-            let raw: Vec<_> = kms.iter().map(|km| Key::<48>::from(km.p384_sk)).collect();
+            let raw: Vec<_> = kms.iter().map(|km| mk_key::<48>(km.p384_sk)).collect();
             let keys: Vec<_> = raw.iter().map(PasetoAsymmetricPrivateKey::<V3, Public>::from).collect();
             run_core_public!(V3, ops, keys, assert = yes)
         }
         (4, true) => {
-            let raw: Vec<_> = kms.iter().map(|km| Key::<64>::from(km.ed_sk)).collect();
+            let raw: Vec<_> = kms.iter().map(|km| mk_key::<64>(km.ed_sk)).collect();
             let keys: Vec<_> = raw.iter().map(PasetoAsymmetricPrivateKey::<V4, Public>::from).collect();
             run_core_public!(V4, ops, keys, assert = yes)
         }
